@@ -5,6 +5,7 @@ TEXT dimension is the fixed corpus (DESIGN.md 3.3) - simulation does not enumera
 import ast
 import configparser
 import copy
+import re
 import tomllib
 
 from packaging.requirements import InvalidRequirement, Requirement
@@ -45,7 +46,7 @@ def parse_manifest(kind, data: bytes):
         bad = []
         logical = text.replace("\\\r\n", " ").replace("\\\n", " ")
         for line in logical.splitlines():
-            line = line.split(" #")[0].strip() if not line.lstrip().startswith("#") else ""
+            line = re.sub(r"(^|\s+)#.*$", "", line).strip()  # pip: a comment starts at a '#' that follows whitespace or the line start
             if not line or line.startswith("-"):
                 continue
             line = line.split(" --hash")[0].strip()
@@ -340,7 +341,10 @@ class C14(Check):
             add("manifest-touched-without-need", "+".join(mname(p) for p in touched), {"touched": touched})
         # re-run adds nothing to manifests
         re_m = sorted(p for p in second["changed"] if p in manifests)
-        if second["status"] == 0 and re_m and not first["exception"]:
+        # (when the re-run rewrites the SOURCE again the codemod is not a fixed point on this input - C07's finding; a
+        # dependency needed by that second rewrite is then legitimately looked for again)
+        src_again = any(p.endswith(".py") and p.rsplit("/", 1)[-1] != "setup.py" for p in second["changed"])
+        if second["status"] == 0 and re_m and not first["exception"] and not src_again:
             add("rerun-changes-manifest", "+".join(mname(p) for p in re_m), {"changed": re_m})
         # nothing could be updated: run succeeds and says so
         if src_changed and not written:
